@@ -200,6 +200,11 @@ HARVEST = {pid: " Thorough tier also runs the repository's whole test suite unde
                              "C07": "masking.blur_mask / smear_mask (all make_clip_mask traffic)",
                              "C12": "operations.depth.ocean_floor", "C13": "operations.depth.normalize_depth_variables",
                              "C17": "utils.format_time_units_for_ems", "C20": "cli.utils.bounds_argument / geometry_argument"}.items()}
+HARVEST["C11"] = (" Thorough tier also shows with Apalache that the binding invariants (CachedIsBound, BoundBelongs) are inductive and that every "
+                  "step from any state satisfying them keeps BoundStable / NewStartUnbound / CopiesIndependent (spec/apalache/Binding.tla), i.e. at any depth.")
+for _pid in ("C01", "C02", "C03", "C04", "C05", "C06", "C07", "C08", "C09", "C12", "C13", "C14", "C15", "C17", "C18", "C19"):
+    HARVEST[_pid] = HARVEST.get(_pid, "") + (" Every generated world is concretised in varying ways (in memory / lazily reopened netCDF file / dask-backed / "
+                                             "emsarray.open_dataset; other dimension and coordinate names; x-before-y dimension order; on-disk encodings).")
 PENDING_REASON = "check not built yet in this round (specification and binding under construction; see DESIGN.md section 13)"
 props = [json.loads(l) for l in (V / "properties.jsonl").read_text().splitlines() if l.strip()]
 checks, na = [], []
